@@ -82,7 +82,7 @@ def parsed_name(junk, section_name):
 
 
 def section_name2(title):
-    t = title.upper()
+    t = title.strip().upper()
     return "Curves" if t.startswith("~C") else "Parameter" if t.startswith("~P") else "Well" if t.startswith("~W") else "Version" if t.startswith("~V") else title
 
 
